@@ -4,7 +4,11 @@
 //!   chain sats item*
 //!   item: 0 count first_id        `count` empty blocks (coinbase = one output claiming the subsidy);
 //!                                 the very first one is the genesis block of the network
-//!         1 ntx tx*               tx: id nin (ptx pvout)* nout (value opret)* nenv env*
+//!         1 ntx tx*               tx: id nin (ptx pvout)* nout (value script)* nenv env*
+//!                                 script = 2*kind + f: kind selects the output script the harness builds
+//!                                 (SCRIPT_KINDS below; kind 0: f = 0 p2wpkh, f = 1 a bare OP_RETURN), f = 1 iff
+//!                                 the first byte of that script is 0x6a (computed here from the script bytes,
+//!                                 checked at replay); the model reads only f
 //!   env:  nrecipe recipe*  input offset pushnum stutter dup incomplete uneven ptr_field ptr_opt hidden
 //!         nparents (ptx pidx)*
 //! Transaction ids are canonical small integers in creation order (0 = all-zero txid).  The recipe
@@ -44,7 +48,59 @@ pub struct TxSpec {
   pub id: u64,
   pub ins: Vec<(u64, u32)>,
   pub outs: Vec<(u64, bool)>,
+  /// script kind per output (missing = 0)
+  pub kinds: Vec<u64>,
   pub envs: Vec<EnvSpec>,
+}
+
+impl TxSpec {
+  pub fn kind(&self, i: usize) -> u64 {
+    self.kinds.get(i).copied().unwrap_or(0)
+  }
+}
+
+pub const SCRIPT_KINDS: u64 = 13;
+
+/// the output script of a kind, as raw bytes (`f` matters for kind 0 only)
+pub fn script_bytes(kind: u64, f: bool) -> Vec<u8> {
+  let h20 = [0x11u8; 20];
+  let h32 = [0x22u8; 32];
+  let mut v: Vec<u8> = Vec::new();
+  match kind {
+    0 => {
+      if f {
+        v.push(0x6a); // OP_RETURN alone
+      } else {
+        v.extend_from_slice(&[0x00, 0x14]); // p2wpkh of the all-zero hash
+        v.extend_from_slice(&[0u8; 20]);
+      }
+    }
+    1 => {}                                            // empty script
+    2 => v.extend_from_slice(&[0x50, 0x03, 1, 2, 3]),  // OP_RESERVED + data
+    3 => v.extend_from_slice(&[0x62, 0x02, 9, 9]),     // OP_VER + data
+    4 => v.extend_from_slice(&[0xff, 0x01, 0x02, 0x03]), // invalid opcode + bytes
+    5 => v.extend_from_slice(&[0x6a, 0x04, b'd', b'a', b't', b'a']), // OP_RETURN + data
+    6 => v.extend_from_slice(&[0x51, 0x6a, 0x02, 7, 7]), // OP_1 OP_RETURN ..: OP_RETURN not first
+    7 => {
+      v.extend_from_slice(&[0x51, 0x20]); // p2tr
+      v.extend_from_slice(&h32);
+    }
+    8 => {
+      v.extend_from_slice(&[0x76, 0xa9, 0x14]); // p2pkh
+      v.extend_from_slice(&h20);
+      v.extend_from_slice(&[0x88, 0xac]);
+    }
+    9 => v.extend_from_slice(&[0x65, 0x01, 0x00]),     // OP_VERIF + data
+    10 => v.extend_from_slice(&[0xbb, 0xbb, 0xbb]),    // undefined opcodes
+    11 => v.extend_from_slice(&[0x89, 0x01, 0x05]),    // OP_RESERVED1 + data
+    _ => v.extend_from_slice(&[0x00, 0x6a]),           // OP_0 OP_RETURN: OP_RETURN second
+  }
+  v
+}
+
+/// the harness's own rule for the flag handed to the model: the script's first byte is OP_RETURN (0x6a)
+pub fn first_byte_is_op_return(script: &[u8]) -> bool {
+  script.first() == Some(&0x6a)
 }
 
 #[derive(Clone, Debug)]
@@ -84,9 +140,9 @@ pub fn encode_case(c: &Case) -> Line {
             l.push(*b);
           }
           l.push(t.outs.len());
-          for (v, o) in &t.outs {
+          for (i, (v, o)) in t.outs.iter().enumerate() {
             l.push(*v);
-            l.push(*o);
+            l.push(2 * t.kind(i) + *o as u64);
           }
           l.push(t.envs.len());
           for e in &t.envs {
@@ -135,7 +191,9 @@ pub fn decode_case(line: &Line) -> Case {
         let nin = c.usize();
         let ins = (0..nin).map(|_| (c.u64(), c.u32())).collect();
         let nout = c.usize();
-        let outs = (0..nout).map(|_| (c.u64(), c.bool())).collect();
+        let raw: Vec<(u64, u64)> = (0..nout).map(|_| (c.u64(), c.u64())).collect();
+        let outs = raw.iter().map(|(v, f)| (*v, f & 1 == 1)).collect();
+        let kinds = raw.iter().map(|(_, f)| f >> 1).collect();
         let nenv = c.usize();
         let mut envs = Vec::new();
         for _ in 0..nenv {
@@ -155,7 +213,7 @@ pub fn decode_case(line: &Line) -> Case {
           let parents = (0..np).map(|_| (c.u64(), c.u32())).collect();
           envs.push(EnvSpec { recipe, input, offset, pushnum, stutter, dup, incomplete, uneven, ptr_field, ptr, hidden, parents });
         }
-        txs.push(TxSpec { id, ins, outs, envs });
+        txs.push(TxSpec { id, ins, outs, kinds, envs });
       }
       items.push(Item::Block(txs));
     }
@@ -314,15 +372,6 @@ fn append_envelope(mut b: bitcoin::script::Builder, r: &[u64], map: &mut TxMap) 
   b.push_opcode(OP_ENDIF)
 }
 
-pub fn op_return_script() -> bitcoin::ScriptBuf {
-  bitcoin::script::Builder::new().push_opcode(bitcoin::opcodes::all::OP_RETURN).into_script()
-}
-
-pub fn plain_script() -> bitcoin::ScriptBuf {
-  use bitcoin::hashes::Hash;
-  bitcoin::ScriptBuf::new_p2wpkh(&bitcoin::WPubkeyHash::all_zeros())
-}
-
 /// build the real transaction of a spec (`height` only feeds the coinbase script_sig)
 pub fn realise_tx(t: &TxSpec, height: usize, map: &mut TxMap) -> bitcoin::Transaction {
   // the txid does not cover the witnesses: bind it first, so that an envelope can name an inscription of its
@@ -365,9 +414,10 @@ fn realise_tx_pass(t: &TxSpec, height: usize, map: &mut TxMap, with_witness: boo
     output: t
       .outs
       .iter()
-      .map(|(v, o)| bitcoin::TxOut {
+      .enumerate()
+      .map(|(i, (v, o))| bitcoin::TxOut {
         value: bitcoin::Amount::from_sat(*v),
-        script_pubkey: if *o { op_return_script() } else { plain_script() },
+        script_pubkey: bitcoin::ScriptBuf::from_bytes(script_bytes(t.kind(i), *o)),
       })
       .collect(),
   }
@@ -473,7 +523,7 @@ pub fn jubilee_of(chain: u64) -> u32 {
 }
 
 pub fn empty_coinbase(id: u64) -> TxSpec {
-  TxSpec { id, ins: vec![(0, NULL_VOUT)], outs: vec![(SUBSIDY, false)], envs: vec![] }
+  TxSpec { id, ins: vec![(0, NULL_VOUT)], outs: vec![(SUBSIDY, false)], kinds: vec![], envs: vec![] }
 }
 
 impl World {
@@ -520,6 +570,16 @@ impl World {
           if self.map.real.contains_key(&t.id) {
             return Err(format!("canonical txid {} used twice", t.id));
           }
+          let mut t = t.clone();
+          for i in 0..t.outs.len() {
+            let f = first_byte_is_op_return(&script_bytes(t.kind(i), t.outs[i].1));
+            if fill {
+              t.outs[i].1 = f;
+            } else if t.outs[i].1 != f {
+              return Err(format!("tx {} output {i}: script kind {} starts with OP_RETURN: {f}, the case declares {}", t.id, t.kind(i), t.outs[i].1));
+            }
+          }
+          let t = &t;
           let tx = realise_tx(t, self.height(), &mut self.map);
           self.map.bind(t.id, tx.compute_txid());
           let recipes: Vec<Vec<u64>> = t.envs.iter().map(|e| e.recipe.clone()).collect();
